@@ -218,7 +218,25 @@ func errCode(err error) int {
 
 var wantCap = map[string]string{"read": "can_read", "write": "can_edit", "delete": "can_delete", "ai_select": "can_ai_select"}
 
+type outRec struct {
+	action   string
+	au, can  bool
+	ce, ee   int
+	uc       string
+}
+
 func c34Policy(res *hx.Result, in c34Input) {
+	ro, recs := evalPolicy(res, in)
+	var outs []string
+	for _, o := range recs {
+		outs = append(outs, fmt.Sprintf("(mkOut %s %s %d %d %s %s)", cs(o.action), hx.CoqBool(o.au), o.ce, o.ee, hx.CoqBool(o.can), cs(o.uc)))
+	}
+	res.AddCase(fmt.Sprintf("PolicyCase %s %s %s %s %s", coqCaller(*in.Caller), cs(in.Name), coqAccess(*in.Access), hx.CoqBool(ro), hx.CoqList(outs)), compact(in))
+	res.Sample(in)
+}
+
+// evalPolicy runs every entry point for every action of the input and applies the direct oracle.
+func evalPolicy(res *hx.Result, in c34Input) (bool, []outRec) {
 	c, a := *in.Caller, *in.Access
 	ctx, ra := c.ctx(), a.real()
 	eff := c.eff()
@@ -226,7 +244,7 @@ func c34Policy(res *hx.Result, in c34Input) {
 	if ro != coreNames[in.Name] {
 		res.Fail("core-resource-set", fmt.Sprintf("IsSystemReadOnly(%q) = %v", in.Name, ro), in)
 	}
-	var outs []string
+	var outs []outRec
 	for _, action := range in.Actions {
 		act := sop.Action(action)
 		au := sop.Authorize(ctx, ra, act)
@@ -279,10 +297,47 @@ func c34Policy(res *hx.Result, in c34Input) {
 		} else {
 			res.Count(fmt.Sprintf("verdict.denied-%d", errCode(ce)))
 		}
-		outs = append(outs, fmt.Sprintf("(mkOut %s %s %d %d %s %s)", cs(action), hx.CoqBool(au), errCode(ce), errCode(ee), hx.CoqBool(can), cs(uc)))
+		outs = append(outs, outRec{action, au, can, errCode(ce), errCode(ee), uc})
 	}
-	res.AddCase(fmt.Sprintf("PolicyCase %s %s %s %s %s", coqCaller(c), cs(in.Name), coqAccess(a), hx.CoqBool(ro), hx.CoqList(outs)), compact(in))
-	res.Sample(in)
+	return ro, outs
+}
+
+const nEnumCallers = 48 // users x role subsets x system flag: the innermost coordinates of enumInput
+
+// c34EnumACL evaluates one (resource, ACL) point of the enumerated domain for all 48 callers and all
+// actions; the correspondence case carries one packed number per caller.
+func c34EnumACL(res *hx.Result, k int) {
+	var packed []byte
+	var first c34Input
+	ro := false
+	for ci := 0; ci < nEnumCallers; ci++ {
+		in := enumInput(k*nEnumCallers + ci)
+		if ci == 0 {
+			first = in
+		}
+		r, recs := evalPolicy(res, in)
+		ro = r
+		for _, o := range recs {
+			code := o.ce*4 + o.ee*16
+			if o.au {
+				code++
+			}
+			if o.can {
+				code += 2
+			}
+			packed = append(packed, byte(48+code))
+		}
+	}
+	res.AddCase(fmt.Sprintf("EnumCase %s %s %s \"%s\"%%string", cs(first.Name), coqAccess(*first.Access), hx.CoqBool(ro), string(packed)), c34Input{Kind: "enumacl", Idx: k})
+	res.Sample(first)
+}
+
+func enumDomainCase() string {
+	var cl []string
+	for ci := 0; ci < nEnumCallers; ci++ {
+		cl = append(cl, coqCaller(*enumInput(ci).Caller))
+	}
+	return fmt.Sprintf("EnumDomainCase %s %s", hx.CoqList(cl), coqStrs(dActions))
 }
 
 // compact keeps result.json small for enumerated cases: the index alone replays them.
@@ -594,6 +649,9 @@ func dispatch(res *hx.Result, in c34Input) {
 	switch in.Kind {
 	case "vocab":
 		res.AddCase(vocabCase(), in)
+		res.AddCase(enumDomainCase(), in)
+	case "enumacl":
+		c34EnumACL(res, in.Idx)
 	case "enum":
 		e := enumInput(in.Idx)
 		c34Policy(res, e)
@@ -632,37 +690,44 @@ func runC34(cfg *hx.RunCfg) (*hx.Result, error) {
 		dispatch(res, in)
 	}
 	r := hx.NewRng(cfg.Seed)
-	size := domainSize()
-	nEnum, nPol, nMap := 1500, 450, 500
+	blocks := domainSize() / nEnumCallers
+	nEnum, nPol, nMap := 432, 450, 500
 	if cfg.Tier == "thorough" {
-		nEnum, nPol, nMap = size, 20000, 12000
+		nEnum, nPol, nMap = blocks, 12000, 8000
 	}
 	if cfg.N > 0 {
-		nEnum, nPol, nMap = cfg.N, cfg.N/3, cfg.N/3
-		if nEnum > size {
-			nEnum = size
-		}
+		nEnum, nPol, nMap = cfg.N, cfg.N, cfg.N
 	}
-	if nEnum >= size {
-		for i := 0; i < size; i++ {
-			dispatch(res, c34Input{Kind: "enum", Idx: i})
-		}
-		res.Notes = append(res.Notes, fmt.Sprintf("enumerated domain walked completely: %d points x %d actions", size, len(dActions)))
+	// the three streams are interleaved so that the (expensive to parse) enumeration cases spread over all shards
+	const stride = 1559 // coprime to every radix: visits all values of every coordinate and a spread of combinations
+	start := 0
+	if nEnum >= blocks {
+		nEnum = blocks
+		res.Notes = append(res.Notes, fmt.Sprintf("enumerated domain walked completely: %d (resource, ACL) points x %d callers x %d actions", blocks, nEnumCallers, len(dActions)))
 	} else {
-		// a stride coprime to every radix visits all values of every coordinate and a spread of combinations;
-		// the offset depends on the seed so that different seeds cover different points
-		const stride = 9973 * 7
-		start := int(r.U64() % uint64(size))
-		for i := 0; i < nEnum; i++ {
-			dispatch(res, c34Input{Kind: "enum", Idx: (start + i*stride) % size})
+		start = int(r.U64() % uint64(blocks)) // different seeds cover different points
+		res.Notes = append(res.Notes, fmt.Sprintf("enumerated domain sampled: %d of %d (resource, ACL) points (stride %d from %d), each with all %d callers x %d actions", nEnum, blocks, stride, start, nEnumCallers, len(dActions)))
+	}
+	total := nEnum + nPol + nMap
+	de, dp, dm := 0, 0, 0
+	for i := 1; i <= total; i++ {
+		switch {
+		case de*total < i*nEnum && de < nEnum:
+			dispatch(res, c34Input{Kind: "enumacl", Idx: (start + de*stride) % blocks})
+			de++
+		case dp*total < i*nPol && dp < nPol:
+			dispatch(res, genPolicy(r))
+			dp++
+		case dm < nMap:
+			dispatch(res, genMap(r, false))
+			dm++
+		case dp < nPol:
+			dispatch(res, genPolicy(r))
+			dp++
+		default:
+			dispatch(res, c34Input{Kind: "enumacl", Idx: (start + de*stride) % blocks})
+			de++
 		}
-		res.Notes = append(res.Notes, fmt.Sprintf("enumerated domain sampled: %d of %d points (stride %d from %d)", nEnum, size, stride, start))
-	}
-	for i := 0; i < nPol; i++ {
-		dispatch(res, genPolicy(r))
-	}
-	for i := 0; i < nMap; i++ {
-		dispatch(res, genMap(r, false))
 	}
 	return res, nil
 }
